@@ -6,6 +6,10 @@ V = os.path.dirname(os.path.abspath(__file__))
 
 # id -> (category, technique, text, note, design_ref)
 CHECKS = {
+ "C02": ("exploration",
+  "model-Redis monitor: entries from the real loader restored through utils.RestoreRdbEntry into an executable model target; whole target database compared with the expected one after every call",
+  "6000/120000 cells of kind x physical encoding x element count {1,2,99,100,101,250} x key_exists x pre-existing key {none,same type,other type} x target.version (fetched or typed, with the big_key_threshold/TargetReplace pairing SanitizeOptions produces) x threshold around the payload size x expiry {none,future,past} x shift {0,+-1h} x hash-tag replacement x idle/freq, plus real 36 MiB chunked hashes; values by logical equality, TTL by a load-independent interval, returned error and process survival checked; floors per route (plain, big-key, quicklist, fallback, chunked).",
+  "Trusted: lib/miniredis RESTORE semantics (BUSYKEY before payload check, 'Bad data format' for types unknown to the target version, REPLACE from 3.0) and lib/refrdb. Cluster targets and ucloud key stripping are out of reach.", "DESIGN.md §5/C02"),
  "C01": ("exploration",
   "generator-by-construction oracle: RDB files whose expected record list and exact payload bytes are emitted by the same walk as the bytes; real loader output compared record by record; child processes, Go race detector on the loader goroutine/channel",
   "3000 (quick) / 60000 (thorough) generated RDB files covering every value type and physical encoding (all ziplist entry encodings, intset widths, zipmap, quicklist, LZF with overlapping back-references, int strings, streams with groups/PEL/consumers), every length form, versions 1-9, s/ms expiry, idle/freq, aux/lua/resize/module-aux (every sub-opcode) between keys and alternating SELECTDB are parsed by rdb.NewLoader (a tenth through a 1..7-byte dribbling reader) and by utils.NewRDBLoader; each record's db/key/type/expiry/idle/freq and the byte-exact checksummed payload are compared with the generator's expectation; 2/8 files with hashes above the 16 MiB chunk limit check chunk concatenation, trailers, expiry on every chunk and the neighbours. Coverage floors per encoding and metadata kind.",
